@@ -116,6 +116,37 @@ Proof. vm_compute. reflexivity. Qed.
         c.oblige("Gen_declshape.declarations_forget_paths_first (equate and translate, line by line: ratios stored, then memoised paths forgotten, then memoised plans; "
                  "plans are built from paths and not the other way round)", ok, log[-500:])
         c.cov["declaration_lines"] = {"equate": eq_l, "translate": tr_l}
+        # the stores of equate as data: _ratios[X.unit][Y.unit] = _div(P.magnitude, Q.magnitude) is (X, Y, P, Q); both operands unprefixed first;
+        # any other statement that mentions _ratios is untranslatable.  The kernel compares the list with the model's (Model/Declare.v), the
+        # hypothesis of C08_source_stores_are_model_equate -- and so of the reciprocity / latest-declaration theorems of Props/C08.v
+        import re as _re
+        def equate_shape():
+            fn = funcs["equate"]
+            if [a.arg for a in fn.args.args] != ["a", "b"]: raise ValueError("equate: parameters are not (a, b)")
+            unpref, shapes = set(), []
+            for st in fn.body:
+                src_ = ast.unparse(st)
+                m = _re.fullmatch(r"([ab]) = \1\.unprefixed\(\)", src_)
+                if m:
+                    if shapes: raise ValueError("equate: an operand is unprefixed after a ratio was stored")
+                    unpref.add(m.group(1)); continue
+                if "_ratios" in src_:
+                    m = _re.fullmatch(r"_ratios\[([ab])\.unit\]\[([ab])\.unit\] = _div\(([ab])\.magnitude, ([ab])\.magnitude\)", src_)
+                    if not m: raise ValueError(f"equate: a store the declaration model does not have: {src_[:90]}")
+                    if unpref != {"a", "b"}: raise ValueError("equate: a ratio stored before both operands are unprefixed")
+                    shapes.append("(" + ", ".join("S" + g.upper() for g in m.groups()) + ")")
+            return shapes
+        shp = equate_shape()
+        txt3 = f"""From Coq Require Import List Bool. Import ListNotations.
+From Measured Require Import Model.Declare.
+Definition equate_stores : list store_shape := {clist(shp)}.
+Lemma equate_stores_shipped : shapes_eqb equate_stores shipped_stores = true.
+Proof. vm_compute. reflexivity. Qed.
+"""
+        ok, log = c.run_coq({"Gen_eqshape": txt3})["Gen_eqshape"]
+        c.oblige("Gen_eqshape.equate_stores_shipped (equate's assignments read off the source are the two unconditional stores of Model.Convert.equate: "
+                 "both directions of the pair, from the unprefixed operands)", ok, log[-500:])
+        c.cov["equate_stores"] = shp
     except Exception as ex:
         c.oblige("struct_scan of conversions.py (translator)", False, str(ex))
     nh, nops = (60, 28) if c.tier == "quick" else (600, 45)
